@@ -69,6 +69,8 @@ Lemma fp_so_set o c v : pres R (so_set cfg sd o c v).
 Proof. unfold so_set. psolve. Qed.
 Lemma fp_so_sync_update o : pres R (so_sync_update cfg sd o).
 Proof. unfold so_sync_update. psolve. Qed.
+Lemma fp_so_pickle o : pres R (so_pickle cfg sd o).
+Proof. unfold so_pickle. psolve. apply fp_so_sync_update. Qed.
 Lemma fp_so_reload o : pres R (so_reload sd o).
 Proof. unfold so_reload. psolve; try apply fp_select_init; try apply fp_db_select_one. Qed.
 Lemma fp_so_sync o : pres R (so_sync cfg sd o).
@@ -144,6 +146,8 @@ Proof.
     refine ((_ : pres R (bind _ _)) s). psolve. apply fp_so_sync.
   - cbn [run_op]. apply fp_handle_op. intros [sd' x] E. rewrite E in Hs. inversion Hs; subst. cbn [fst snd].
     refine ((_ : pres R (bind _ _)) s). psolve. apply fp_so_sync_update.
+  - (* pickle *) cbn [run_op]. apply fp_handle_op. intros [sd' x] E. rewrite E in Hs. inversion Hs; subst. cbn [fst snd].
+    refine ((_ : pres R (bind _ _)) s). psolve. apply fp_so_pickle.
   - (* drop *) cbn [run_op]. unfold bind, modify, ret. cbn.
     destruct (nth h (slots s) None) as [[sd' x]|] eqn:E; [|discriminate].
     inversion Hs; subst. eapply H_drop. exact E.
